@@ -972,3 +972,62 @@ Proof.
   - lia.
   - eapply nth_error_In; eauto.
 Qed.
+
+(** ** Towards [completes]: the deterministic scheduler [drain] only takes transitions, so whenever it
+    comes to rest from a reachable requested state, that state is completed.  What is NOT mechanised
+    is that it always comes to rest (termination of the threads' programs: every loop iteration of a
+    listener consumes a queued connection or a wake-up). *)
+Lemma drain_run v fuel s : exists sched, run v s sched = Some (drain v fuel s).
+Proof.
+  revert s; induction fuel as [|f IH]; intros s; cbn [drain]; [exists []; reflexivity|].
+  destruct (find (enabledb v s) (thread_labels s)) as [lb|] eqn:F; [|exists []; reflexivity].
+  destruct (step v s lb) as [s1|] eqn:E; [|exists []; reflexivity].
+  destruct (IH s1) as [sched H]. exists (lb :: sched). cbn [run]. rewrite E. exact H.
+Qed.
+
+Lemma swapD_gS s : gS (swapD s) = gS s. Proof. apply swapD_S. Qed.
+Lemma rstep_gS s r : gS (fst (rstep s r)) = gS s.
+Proof. destruct r; cbn [rstep fst]; try reflexivity. apply swapD_S. Qed.
+
+Lemma step_requested v s lb s' : step v s lb = Some s' -> requested s = true -> requested s' = true.
+Proof.
+  unfold requested. intros H GS. destruct lb as [i|i|i|c|c|k| |h|w]; cbn [step] in H.
+  - destruct (nth_error (ls s) i) as [l|]; [|discriminate]. unfold step_listener in H.
+    destruct (l_pc l) as [| | | | | | | |r|]; try discriminate;
+      repeat match type of H with
+             | context [if ?b then _ else _] => destruct b eqn:?
+             | context [option_map _ (park ?l)] => destruct (park l); cbn [option_map] in H
+             end; try discriminate; try (inversion H; subst; cbn; congruence).
+    pose proof (rstep_gS s r) as G. destruct (rstep s r) as [s1 o]. cbn [fst] in G. inversion H; subst. cbn. congruence.
+  - destruct (nth_error (ls s) i) as [l|]; [|discriminate]. unfold step_take in H.
+    destruct (l_queue l); [discriminate|]. destruct (can_take v (l_pc l)); [|discriminate]. inversion H; subst. exact GS.
+  - destruct (nth_error (ls s) i) as [l|]; [|discriminate]. destruct (l_bound l); [|discriminate]. inversion H; subst. exact GS.
+  - destruct (nth_error (cs s) c) as [p|]; [|discriminate]. unfold step_conn in H.
+    destruct p as [| | |r|]; try discriminate; try (inversion H; subst; cbn; congruence).
+    pose proof (rstep_gS s r) as G. destruct (rstep s r) as [s1 o]. cbn [fst] in G. inversion H; subst. cbn. congruence.
+  - destruct (nth_error (cs s) c) as [p|]; [|discriminate]. unfold step_panic in H.
+    destruct p; try discriminate. inversion H; subst. exact GS.
+  - destruct (nth_error (callers s) k) as [p|]; [|discriminate]. unfold step_caller in H.
+    destruct p; try discriminate; inversion H; subst; cbn; auto. rewrite swapD_S. exact GS.
+  - unfold step_comp in H. destruct (comp s); try discriminate;
+      repeat match type of H with context [if ?b then _ else _] => destruct b eqn:? end; try discriminate; inversion H; subst; cbn; congruence.
+  - destruct (nth_error (hooks s) h) as [p|]; [|discriminate]. unfold step_hook in H.
+    destruct p; try discriminate; repeat match type of H with context [if ?b then _ else _] => destruct b eqn:? end;
+      try discriminate; inversion H; subst; cbn; congruence.
+  - destruct (nth_error (waiters s) w) as [[|]|]; try discriminate. destruct (finished s); [|discriminate]. inversion H; subst. exact GS.
+Qed.
+
+Lemma run_requested v s sched s' : run v s sched = Some s' -> requested s = true -> requested s' = true.
+Proof.
+  revert s; induction sched as [|lb r IH]; cbn [run]; intros s H GS; [inversion H; subst; exact GS|].
+  destruct (step v s lb) as [s1|] eqn:E; [|discriminate]. eapply IH; eauto. eapply step_requested; eauto.
+Qed.
+
+Lemma completes_partial s fuel :
+  reachable repaired s -> requested s = true -> quiescentb repaired (drain repaired fuel s) = true ->
+  exists sched s', run repaired s sched = Some s' /\ completed s' = true.
+Proof.
+  intros R GS Q. destruct (drain_run repaired fuel s) as [sched H].
+  exists sched, (drain repaired fuel s). split; auto.
+  apply no_hang; [eapply reachable_run; eauto|eapply run_requested; eauto|apply quiescentb_sound; exact Q].
+Qed.
